@@ -129,6 +129,10 @@ def fixed_corpus():
     add(D([A2, C3, within('G', ['A', 'C'], preds=(('table', [['a0', 'c0'], ['a1', 'c0'], ['a1', 'c1']]), 'else'))],
           cross('ACG', 'AG')))
     add(D([A3, {'name': 'B', 'levels': ['b0', 'b1', 'b2', 'b3']}], cross('AB', 'A')))   # 21 trial variables
+    # window with an explicit start over a weighted uncrossed factor (its definition is rewritten for the copies)
+    add(D([A2, B2, CW, window('W', 'C', 1, start=2, preds=(('first', 'c0'), 'else'))],
+          cross('ABCW', 'AB', [['AtMostKInARow', 3, 'W', 'w0']])))
+    add(D([A2, B2, CW, window('W', 'C', 2, start=3)], cross('ABCW', 'AB')))
     # ---- weights ---------------------------------------------------------------------------------------------------
     add(D([AW, B2], cross('AB', 'AB')))
     add(D([AW, B2], cross('AB', 'AB', [['MinimumTrials', 8]])))
